@@ -1,7 +1,10 @@
 from algo_prop import make
 LEAN_EXTRA = ["PyXABProofs.Generated.OrderTieC13", "PyXABProofs.Generated.FormulasC13"]
 ALGOS = ['VROOM']
-budget, explore, search, replay = make("C13", ALGOS, quick_per_algo=24, thorough_per_algo=300, salt=1300)
+# the depth cap below, at and above the ranking depth floor(log2 n), and above the budget (directed, on every run)
+CAPS = [("VROOM", {"params": {"n": 40, "h_max": hm, "b": 1.0, "f_max": 1.0}, "kind": kd, "K": 2, "d": dd, "T": 40})
+        for hm, kd, dd in [(0, "binary", 1), (1, "randBinary", 2), (5, "binary", 2), (6, "binary", 1), (100, "randBinary", 1), (0, "binary", 2)]]
+budget, explore, search, replay = make("C13", ALGOS, quick_per_algo=24, thorough_per_algo=300, salt=1300, long_runs=CAPS)
 RULE = ("the documented pull/receive loop on the real classes: algorithm x partition class (K 2..5) x dimension 1..3 x box shape x "
         "parameters from the documented ranges x ten reward modes (dyadic noise, all-negative, zero, constant, few-valued ties, "
         "alternating sign, large, objective+noise) x five split-fraction modes, 20..150 rounds, time labels t0+i, recommendation "
